@@ -541,9 +541,9 @@ def expected(m, cfg, dform, tform, zform, dvals, tvals, zvals, year, fields, as_
     f = dict(fields) if fields else {"month": None, "day": None, "doy": None, "week": None, "dow": None}
     # time units
     dec_tok = [t for t in ttoks if t[0] in ",."]
-    hour = tvals.get("hh")
-    minute = tvals.get("mm")
-    second = tvals.get("ss")
+    hour = tvals.get("hh") if "hh" in ttoks else None
+    minute = tvals.get("mm") if "mm" in ttoks else None
+    second = tvals.get("ss") if "ss" in ttoks else None
     if dec_tok:
         unit = dec_tok[0][1:]
         if unit == "ii":
@@ -677,6 +677,28 @@ def rivals(doc, cfg, dform, text, with_time):
 # ---------------------------------------------------------------------------
 # case construction
 
+def judge(doc, m, cfg, dform, tform, zform, dvals, tvals, zvals, year, fields, as_parsed, text):
+    """The oracle's verdict on a rendered text: (expected point | 'err' | '?' | 'AMBIGUOUS..', dump, applies).
+
+    '?' only for a text that a *different* documented form decodes first (the documented overlaps) or that
+    is, although built from an undocumented combination, spelled exactly like a documented one."""
+    if combo_allowed(cfg, dform, tform, zform):
+        point, dump, applies = expected(m, cfg, dform, tform, zform, dvals, tvals, zvals, year, fields,
+                                        as_parsed)
+        if dform is not None:
+            dtext = render(date_tokens(dform[2]), dvals, cfg[0])
+            for other in rivals(doc, cfg, dform, dtext, tform is not None):
+                win = known_overlap_winner(dform, other, cfg[0])
+                if win is None:
+                    return "AMBIGUOUS:%s/%s" % (dform[2], other[2]), None, False
+                if win is not dform:
+                    return "?", None, False
+        return point, dump, applies
+    if spelled_like_documented(doc, cfg, text):
+        return "?", None, False
+    return "err", None, False
+
+
 CFG_ZONES = [("a", 0, 0), ("a", 5, 30), ("a", -3, -30), ("a", 0, -45), ("u",), ("l", 1, 0), ("l", -8, 0),
              ("l", 0, 0), ("a", 14, 0), ("l", 5, 45)]
 
@@ -715,20 +737,8 @@ def build_case(rng, doc, m, cfg, dform, tform, zform, valid=True, as_parsed=None
     text = render(dtoks, dvals, ned)
     if tform is not None:
         text += "T" + render(ttoks, tvals, ned) + (render(ztoks, zvals, ned) if zform else "")
-    allowed = combo_allowed(cfg, dform, tform, zform)
-    if allowed:
-        point, dump, applies = expected(m, cfg, dform, tform, zform, dvals, tvals, zvals, year, fields,
-                                        as_parsed)
-        if dform is not None:
-            others = rivals(doc, cfg, dform, render(dtoks, dvals, ned), tform is not None)
-            for other in others:
-                win = known_overlap_winner(dform, other, ned)
-                if win is None:
-                    point, dump, applies = "AMBIGUOUS:%s/%s" % (dform[2], other[2]), None, False
-                elif win is not dform:
-                    point, dump, applies = "?", None, False
-    else:
-        point, dump, applies = "?", None, False
+    point, dump, applies = judge(doc, m, cfg, dform, tform, zform, dvals, tvals, zvals, year, fields,
+                                 as_parsed, text)
     label = "%s|%s|%s" % (dform[2] if dform else "", tform[2] if tform else "-", zform[1] if zform else "-")
     return (m, cfg, 1 if as_parsed else 0, text, point, dump or "", 1 if applies else 0, label)
 
@@ -750,6 +760,21 @@ def mutate(rng, text, other):
     i = rng.randint(0, len(text))
     j = rng.randint(0, len(other))
     return text[:i] + other[j:]
+
+
+def has_tie(text):
+    """A fraction of more than six digits whose tail beyond the sixth is exactly one half: the binary
+    value of the float decides which way str() rounds it, so the dump is not compared."""
+    for sep in ",.":
+        if sep in text:
+            i = text.rindex(sep) + 1
+            j = i
+            while j < len(text) and text[j] in "0123456789":
+                j += 1
+            digits = text[i:j]
+            if len(digits) > 6 and digits[6] == "5" and set(digits[7:]) <= {"0"}:
+                return True
+    return False
 
 
 def long_decimal_run(text):
@@ -843,7 +868,7 @@ class Parse(Op):
             text = mutate(rng, rng.choice(pool), rng.choice(pool))
             if rng.random() < 0.3:
                 text = mutate(rng, text, rng.choice(pool))
-            if long_decimal_run(text) > 12 + 7:
+            if long_decimal_run(text) > 12:
                 continue
             yield ("greg" if rng.random() < 0.8 else gens.mode(rng), cfg, 1 if rng.random() < 0.5 else 0,
                    text, "?", "", 0, "mutation")
@@ -864,7 +889,8 @@ class Parse(Op):
             text = render(dtoks, dv, cfg[0])
             if tform is not None:
                 text += "T" + render(ttoks, tv, cfg[0]) + (render(ztoks, zv, cfg[0]) if zform else "")
-            point, dump, applies = expected(mode, cfg, dform, tform, zform, dv, tv, zv, year, fields, bool(ap))
+            point, dump, applies = judge(doc, mode, cfg, dform, tform, zform, dv, tv, zv, year, fields,
+                                         bool(ap), text)
             label = "sweep|%s|%s|%s" % (dform[2] if dform else "", tform[2] if tform else "-",
                                         zform[1] if zform else "-")
             out.append((mode, cfg, ap, text, point, dump or "", 1 if applies else 0, label))
@@ -981,6 +1007,8 @@ class Parse(Op):
         with local_zone(cfg[3]):
             p = get_parser(cfg).parse(text, dump_as_parsed=bool(as_parsed))
         out = canon_point(p)
+        if as_parsed and has_tie(text):
+            return out + " | TIE"
         if as_parsed:
             try:
                 out += " | " + enc(str(p))
@@ -1006,59 +1034,38 @@ class Parse(Op):
                 return "%s was refused; the form %s spells %s" % (what, label, point)
             if got_point != point:
                 return "%s decoded to %s; the form %s spells %s" % (what, got_point, label, point)
-            if as_parsed:
+            if as_parsed and got_dump != "TIE":
                 if got_dump.startswith(("err", "EXC")):
                     return "%s: str() of the dump_as_parsed result failed: %s" % (what, got_dump)
                 if applies and dec(got_dump) != dump:
                     return "%s: str() of the dump_as_parsed result is %r, the input up to trailing decimal zeros is %r" % (
                         what, dec(got_dump), dump)
             return None
-        # unknown expectation (mutations, losers of a documented overlap, undocumented combinations)
-        if label != "mutation" and point == "?" and not self._documented(a) and got_point != "err":
-            return "%s was accepted as %s although %s is not a documented combination under this configuration" % (
-                what, got_point, label)
-        if got_point != "err" and as_parsed and not text.endswith("\n"):
+        # unknown expectation: mutations, losers of a documented overlap
+        if got_point != "err" and as_parsed and not text.endswith("\n") and got_dump != "TIE":
             if got_dump.startswith(("err", "EXC")):
                 return "%s: str() of the dump_as_parsed result failed: %s" % (what, got_dump)
-            if not same_up_to_decimals(dec(got_dump), text):
+            if not same_up_to_decimals(dec(got_dump), text, cfg[0]):
                 return "%s: str() of the dump_as_parsed result is %r" % (what, dec(got_dump))
         return None
-
-    @staticmethod
-    def _documented(a):
-        """Only called for rendered (non-mutation) cases with an unknown expectation: True when the
-        case lost a documented overlap, False when the combination itself is undocumented."""
-        return "|" not in a[7] or a[7].startswith("sweep") or a[7].count("|") != 2 or Parse._combo_ok(a)
-
-    @staticmethod
-    def _combo_ok(a):
-        doc = documented()
-        dexpr, texpr, zexpr = a[7].split("|")
-        cfg = a[1]
-        text = a[3]
-        for d in [x for x in doc["date"] if x[2] == dexpr] or [None]:
-            for t in ([x for x in doc["time"] if x[2] == texpr] if texpr != "-" else [None]):
-                for z in ([x for x in doc["zone"] if x[1] == zexpr] if zexpr != "-" else [None]):
-                    if d is None and dexpr != "":
-                        continue
-                    if combo_allowed(cfg, d, t, z):
-                        return True
-        # an undocumented combination may still be spelled exactly like a documented one
-        return spelled_like_documented(doc, cfg, text)
 
     def label(self, a):
         m, cfg, as_parsed, text, point, dump, applies, label = a
         kind = "mutation" if label == "mutation" else ("invalid" if point == "err" else (
             "unknown" if point == "?" else "valid"))
-        shape = label if label != "mutation" else "-"
-        return "tparse/%s/ned%d%s%s/%s/%s" % (kind, cfg[0], "/basic" if cfg[1] else "", "/trunc" if cfg[2] else "",
-                                               cfg[3][0], shape)
+        if label == "mutation":
+            return "tparse/mutation/ned%d%s%s" % (cfg[0], "/basic" if cfg[1] else "", "/trunc" if cfg[2] else "")
+        parts = label.split("|")
+        dexpr, texpr, zexpr = parts[-3:]
+        if texpr == "-":
+            return "tparse/%s/date:%s" % (kind, dexpr)
+        return "tparse/%s/time:%s/zone:%s" % (kind, texpr, zexpr)
 
     def nontrivial(self, a):
         return a[7] != "CCYY-MM-DD|hh:mm:ss|Z"
 
 
-def same_up_to_decimals(a, b):
+def same_up_to_decimals(a, b, ned=0):
     """a == b up to trailing zeros / 6-digit rounding of a decimal fraction and the sign of a zero."""
     if a == b:
         return True
@@ -1075,30 +1082,33 @@ def same_up_to_decimals(a, b):
     ha, da, ta = split(a)
     hb, db, tb = split(b)
     if not db:
-        return zero_sign_equal(a, b)
-    if not (zero_sign_equal(ha, hb) and zero_sign_equal(ta, tb)):
+        return zero_sign_equal(a, b, ned)
+    if not (zero_sign_equal(ha, hb, ned) and zero_sign_equal(ta, tb, ned, False)):
         return False
     if len(db) <= 6:
         return da == norm_decimals(db)
     return da in round6(db)
 
 
-def zero_sign_equal(a, b):
+def zero_sign_equal(a, b, ned=0, at_start=True):
+    """a == b, except that a '-' of the input b in front of an all-zero year (at the very start, 4 + ned
+    zeros) or an all-zero offset (to the end of the text) may have become '+'."""
     if a == b:
         return True
     if len(a) != len(b):
         return False
-    # the only tolerated difference: '-' in the input became '+' in front of an all-zero field
     for i, (x, y) in enumerate(zip(a, b)):
-        if x != y:
-            if not (y == "-" and x == "+"):
+        if x == y:
+            continue
+        if not (y == "-" and x == "+"):
+            return False
+        if i == 0 and at_start:
+            width = 4 + ned
+            if b[1:1 + width] != "0" * width:
                 return False
-            j = i + 1
-            digits = ""
-            while j < len(b) and b[j] in "0123456789:":
-                digits += b[j]
-                j += 1
-            if set(digits) - {"0", ":"} or not digits:
+        else:
+            rest = b[i + 1:]
+            if not rest or set(rest) - {"0", ":"}:
                 return False
     return True
 
@@ -1112,20 +1122,21 @@ def spelled_like_documented(doc, cfg, text):
     if len(parts) != 2:
         return False
     date, rest = parts
-    for d in doc["date"] + [None]:
-        if d is None:
-            if date:
-                continue
-        elif not spells(date_tokens(d[2]), date, ned):
+    dcands = [d for d in doc["date"] if spells(date_tokens(d[2]), date, ned)]
+    if not date:
+        dcands.append(None)
+    if not dcands:
+        return False
+    for cut in range(len(rest) + 1):
+        tcands = [t for t in doc["time"] if spells(time_tokens(t[2]), rest[:cut], ned)]
+        if not tcands:
             continue
-        for t in doc["time"]:
-            for z in doc["zone"] + [None]:
-                if not combo_allowed(cfg, d, t, z):
-                    continue
-                ttoks = time_tokens(t[2])
-                ztoks = zone_tokens(z[1]) if z else []
-                for cut in range(len(rest) + 1):
-                    if spells(ttoks, rest[:cut], ned) and (spells(ztoks, rest[cut:], ned) if z else cut == len(rest)):
+        zcands = [None] if cut == len(rest) else [z for z in doc["zone"]
+                                                  if spells(zone_tokens(z[1]), rest[cut:], ned)]
+        for d in dcands:
+            for t in tcands:
+                for z in zcands:
+                    if combo_allowed(cfg, d, t, z):
                         return True
     return False
 
@@ -1213,9 +1224,6 @@ class BasicOnly(Op):
     def gen(self, rng, tier, boost):
         doc = documented()
         dates, times, zones = doc["date"], doc["time"], doc["zone"]
-        basic_d = {d[2] for d in dates if d[0] == "basic"}
-        basic_t = {t[2] for t in times if t[0] == "basic"}
-        basic_z = {z[1] for z in zones if z[0] == "basic"}
         reps = (1 if tier == "quick" else 4) * boost
         jobs = []
         for ned in (2, 0, 3):
@@ -1235,13 +1243,6 @@ class BasicOnly(Op):
                     cfg = (ned, basic, trunc, zone)
                     case = build_case(rng, doc, "greg", cfg, d, t, z, as_parsed=False)
                     m, cfg, ap, text, point, dump, applies, label = case
-                    only_ext = (d[2] not in basic_d) or (t is not None and t[2] not in basic_t) or \
-                        (z is not None and z[1] not in basic_z)
-                    mixed = t is not None and d[1] != "truncated" and (
-                        (d[0] != t[0] and not (d[2] in basic_d and t[2] in basic_t and d[0] == "basic")) or
-                        (z is not None and z[0] != t[0]))
-                    if point == "?" and not spelled_like_documented(doc, cfg, text):
-                        point = "err"
                     yield (m, cfg, ap, text, point, dump, applies, label)
 
     line = Parse.line
